@@ -2278,7 +2278,12 @@ impl Kanata {
             .historical_keys
             .iter_hevents()
             .next()
-            .map(|he| he.ticks_since_occurrence >= k.switch_max_key_timing)
+            // `key-timing n lt t` is true up to and including an age of t ticks.
+            // The age saturates and cannot grow beyond the largest value.
+            .map(|he| {
+                he.ticks_since_occurrence > k.switch_max_key_timing
+                    || he.ticks_since_occurrence == u16::MAX
+            })
             .unwrap_or(true);
         let chordsv2_accepts_chords = k
             .layout
